@@ -131,7 +131,7 @@ theorem mem_picks {α} : ∀ (l : List α) (am : α × List α), am ∈ picks l 
 
 theorem lsum_range_picks {α} (l : List α) (G : α → List α → ℚ) :
     lsum (List.range l.length)
-        (fun j => match l[j]? with | none => 0 | some a => G a (l.eraseIdx j))
+        (fun j => (l[j]?).elim 0 (fun a => G a (l.eraseIdx j)))
       = lsum (picks l) (fun am => G am.1 am.2) := by
   induction l generalizing G with
   | nil => simp [picks, lsum]
@@ -141,6 +141,7 @@ theorem lsum_range_picks {α} (l : List α) (G : α → List α → ℚ) :
     simp only [List.getElem?_cons_zero, List.eraseIdx_cons_zero, Nat.succ_eq_add_one,
       List.getElem?_cons_succ, List.eraseIdx_cons_succ]
     rw [ih (fun b m => G b (a :: m))]
+    simp only [Option.elim]
 
 /-- double counting: for `F` symmetric in the chosen part (on elements satisfying `P`), picking one
 element first and then a split of the rest counts each split once per chosen element -/
